@@ -30,7 +30,8 @@ for d in sorted(glob.glob("/verif/seeded/C*-m*")):
 def run_group(by, seeds):
     out = []
     for sid, d in seeds:
-        r = subprocess.run(["/verif/tools/mutcheck.sh", by, d + "/patch.diff"], capture_output=True, text=True, cwd="/verif")
+        r = subprocess.run(["/verif/tools/mutcheck.sh", by, d + "/patch.diff"], capture_output=True, text=True, cwd="/verif",
+                           env=dict(os.environ, MUTREPO_TAG="_sweep"))
         txt = r.stdout + r.stderr
         vio = re.findall(r"VIOLATION property=\S+ replay=\S+(?: no-failing-input-found)?", txt)
         if "PATCH-DOES-NOT-APPLY" in txt:
@@ -48,7 +49,7 @@ def run_group(by, seeds):
         json.dump(m, open(d + "/meta.json", "w"), indent=1)
         out.append((sid, by, verdict, (vio[0] if vio else txt[-200:].replace("\n", " "))))
         print(f"{sid} by={by} {verdict}", flush=True)
-    subprocess.run(["rm", "-rf", f"/tmp/mutrepo_{by}"])
+    subprocess.run(["rm", "-rf", f"/tmp/mutrepo_{by}_sweep"])
     return out
 
 res = []
